@@ -1,16 +1,21 @@
 (* Property C01 - application data flows only after an authenticated, completed handshake.
    Statements only; proofs in Sess/SessProofs.v.  The handshake layer is an arbitrary oracle here:
-   the theorems hold whatever it answers (legal or illegal message histories). *)
+   the theorems hold whatever it answers (legal or illegal message histories).
+   [decode] covers every enabled protocol version: TLS 1.1/1.2 ([decode12]), TLS 1.3 ([decode13]) and DTLS 1.0/1.2 ([decodeD]);
+   [s] ranges over all states (dtls s = true: a DTLS session). *)
 From MV Require Import Sess.SessModel Sess.SessProofs.
 Local Open Scope Z_scope.
 
 (* every delivery of plaintext to the application happens in a state that admits application data
    (DONE, or accepted early data in WAIT_EOED), with read protection on, from a record that verified
-   under the current read key - for every history of records and handshake-layer answers *)
+   under the current read key - for every history of records and handshake-layer answers; on a DTLS session the
+   record moreover carries the expected epoch and a sequence number the replay window has not seen (or is application
+   data of a later epoch arriving in DONE, whose epoch is adopted - resent final flights move the peer's epoch on) *)
 Theorem c01_deliver_gate : forall is s k,
   nth_error (snd (run s is)) k = Some Deliver ->
   exists sk r o, nth_error (pre_states s is) k = Some sk /\ nth_error is k = Some (r, o) /\
-                 err sk = false /\ closed sk = false /\ rsec sk = true /\ is_good r = true /\ deliver_state sk.
+                 err sk = false /\ closed sk = false /\ rsec sk = true /\ is_good r = true /\ deliver_state sk /\
+                 (dtls sk = true -> dtls_accepts sk r).
 Proof. exact run_deliver_gate. Qed.
 Print Assumptions c01_deliver_gate.
 
@@ -20,7 +25,14 @@ Theorem c01_attacker_never_delivers : forall is s,
 Proof. exact attacker_never_delivers. Qed.
 Print Assumptions c01_attacker_never_delivers.
 
-(* the session refuses to encrypt application data before that point *)
+(* the same with the DTLS attacker, who can also present verbatim copies of records the receiver already accepted (they
+   still verify: epoch and sequence number are explicit); [attacker_input sk i] is required of every step's pre-state sk *)
+Theorem c01_attacker_never_delivers_dtls : forall is s,
+  all_steps attacker_input s is -> ~ In Deliver (snd (run s is)).
+Proof. exact attacker_never_delivers_gen. Qed.
+Print Assumptions c01_attacker_never_delivers_dtls.
+
+(* the session refuses to encrypt application data before that point (DTLS sessions take the <= 1.2 branch: v13 s = false) *)
 Theorem c01_no_seal_before_done : forall s, encode_app_ok s = true ->
   err s = false /\ closed s = false /\ (hs s = c_SSL_HS_DONE \/ (v13 s = true /\ (cl_early s = true \/ sv_early s = true))).
 Proof. exact encode_gate. Qed.
@@ -30,6 +42,6 @@ Print Assumptions c01_no_seal_before_done.
    shortcut) or by the handshake layer itself - never by a data/alert record *)
 Theorem c01_read_protection_origin : forall s r o s' out,
   decode s r o = (s', out) -> rsec s = false -> rsec s' = true ->
-  ((v13 s = false \/ is_fallback o = true) /\ ccs_cause s r) \/ exists h w v resp, legacy_answer o = HsOk h true w v resp.
+  ((dtls s = true \/ v13 s = false \/ is_fallback o = true) /\ ccs_cause s r) \/ exists h w v resp, legacy_answer o = HsOk h true w v resp.
 Proof. exact rsec_origin. Qed.
 Print Assumptions c01_read_protection_origin.
